@@ -110,6 +110,28 @@ def _short(s, n=160):
     return s if len(s) <= n else s[:n - 3] + '...'
 
 
+def verified_in(here, unit, rel, qn):
+    """True iff units/<unit>/unit.rs (with its includes) holds a `//@fn <rel> <qn>` directive that is verified there (no
+    `external` / `nobody` option and not itself an import)."""
+    def lines_of(path, seen):
+        out = []
+        if path in seen or not os.path.exists(path):
+            return out
+        seen.add(path)
+        for ln in open(path, encoding='utf-8').read().split('\n'):
+            st = ln.strip()
+            if st.startswith('//@include '):
+                out += lines_of(os.path.join(here, 'units', st.split()[1]), seen)
+            else:
+                out.append(st)
+        return out
+    for st in lines_of(os.path.join(here, 'units', unit, 'unit.rs'), set()):
+        parts = st.split()
+        if len(parts) >= 3 and parts[0] == '//@fn' and parts[1] == rel and parts[2] == qn:
+            return not ({'external', 'nobody'} & set(parts[3:]))
+    return False
+
+
 def run_unit(unit_dir, repo, work, rlimit=None, stability_seeds=()):
     unit = os.path.basename(unit_dir.rstrip('/'))
     res = UnitResult(unit)
